@@ -56,7 +56,21 @@ func (c16) Components() ([]string, []string) {
 		[]string{"TCP (simnet: byte injection into a live link)", "registrar (static table)", "default logger disabled"}
 }
 
-var c16Kinds = []string{"flip", "flip", "flip", "trunc", "len", "len", "type", "order", "garbage", "zlen", "zbomb", "splice", "hsflip", "hshuge", "hsgarbage"}
+var c16Kinds = []string{"flip", "flip", "flip", "trunc", "len", "len", "type", "order", "garbage", "zlen", "zbomb", "splice", "hsflip", "hshuge", "hsgarbage", "count", "count", "hsvalue"}
+
+// c16Counts: offsets (>= from) of 4-byte big-endian fields holding a small number - lengths and
+// element counts of the encoded values
+func c16Counts(f []byte, from int) []int {
+	var out []int
+	for i := from; i+4 <= len(f); i++ {
+		if f[i] == 0 && f[i+1] == 0 && (f[i+2] != 0 || f[i+3] != 0) {
+			out = append(out, i)
+		}
+	}
+	return out
+}
+
+var c16Big = []uint32{0x00ffffff, 0x0fffffff, 0x10000000, 0x7fffffff, 0xffffffff, 0x01000000}
 
 func (c16) Generate(r *simkit.Rand, tier string) any {
 	c := &C16Case{Stream: r.Range(5, 20), Segment: r.Bool()}
@@ -213,6 +227,29 @@ func mutate(m C16Mut, frames, hs [][]byte) (unit []byte, handshake bool) {
 		out := append(a[:min(k, len(a))], b[min(8, len(b)):]...)
 		binary.BigEndian.PutUint32(out[2:6], uint32(len(out)))
 		return out, false
+	case "count":
+		// an announced length or element count far beyond what follows
+		f := pick(frames)
+		if offs := c16Counts(f, 8); len(offs) > 0 {
+			binary.BigEndian.PutUint32(f[offs[m.Pos%len(offs)]:], c16Big[m.Val%len(c16Big)])
+		}
+		return f, false
+	case "hsvalue":
+		// a handshake frame that carries an arbitrary well-formed value (the first message of a
+		// connection is decoded before anything is known about the peer) with one inflated count
+		vals := []any{[]int64{1, 2, 3}, []string{"a", "b"}, []any{int64(1), "x"}, map[string]int64{"k": 1}, [][]byte{{1}, {2}}, []float64{1.5}, [3]int32{1, 2, 3}}
+		buf := lib.TakeBuffer()
+		buf.Allocate(6)
+		buf.B[0], buf.B[1] = 87, 1
+		if err := edf.Encode(vals[m.Src%len(vals)], buf, edf.Options{}); err != nil {
+			return []byte{87, 1, 0, 0, 0, 1, 0}, true
+		}
+		f := append([]byte(nil), buf.B...)
+		binary.BigEndian.PutUint32(f[2:6], uint32(len(f)-6))
+		if offs := c16Counts(f, 6); len(offs) > 0 {
+			binary.BigEndian.PutUint32(f[offs[m.Pos%len(offs)]:], c16Big[m.Val%len(c16Big)])
+		}
+		return f, true
 	case "hsflip":
 		f := pick(hs)
 		f[m.Pos%len(f)] ^= 1 << (uint(m.Val) % 8)
@@ -315,6 +352,8 @@ func (c16) Run(e *simkit.Env, cc any) {
 		p.Send(victim, "hello")
 		p.Send(gen.ProcessID{Name: "victim", Node: "a@h1"}, ndPayload(7, "struct", 300))
 		p.Send(victim, ndPayload(8, "map", 5))
+		p.Send(victim, []int64{1, 2, 3, 4})
+		p.Send(victim, []any{"x", int64(7), []string{"y", "z"}})
 		p.SetCompression(true)
 		p.SetCompressionThreshold(1024)
 		p.Send(victim, ndPayload(9, "bytes", 5000))
